@@ -263,6 +263,22 @@ class Program:
                             self.inlined.setdefault(rel, {})["aliases_propagated"] = k
                 self.modules[rel] = mod
                 self.by_dotted[mod.dotted] = mod
+        if self.inline:
+            from . import normalize
+            trees = [m.tree for m in self.modules.values()]
+            allh = normalize.collect_gen_helpers(trees)
+            used = set()
+            for rel, mod in self.modules.items():
+                k = normalize.inline_generators(mod.tree, allh, used) if allh else 0
+                if k:
+                    self.inlined.setdefault(rel, {})["generator_helpers_inlined"] = k
+            if used:
+                normalize.drop_unreferenced_gen_helpers(trees, allh, used)
+            for rel, mod in self.modules.items():
+                mixin = rel in ("anytree/node/nodemixin.py", "anytree/node/lightnodemixin.py")
+                st = normalize.normalize_module(mod.tree, None if mixin else _PROPERTY_NAMES)
+                if st:
+                    self.inlined.setdefault(rel, {}).update(st)
 
     def _resolve_from(self, mod, level, name):
         """dotted module named by ``from <level dots><name> import``"""
